@@ -187,6 +187,33 @@ def errors_stream(ctx, n):
             e[rng.choice([i for i in range(dim) if True])] = rng.choice([1, -1, 2])
             cand = (np.array(pts[off]) + np.array(e)).tolist()
             pts[off] = cand
+        if k % 6 == 1:
+            # a repeated point (given by another representative) next to one point off the line: every pair of positions
+            a = np.array([rng.randint(-3, 3) for _ in range(dim)] + [1])
+            d = np.array([rng.randint(-2, 2) for _ in range(dim)] + [0])
+            if not d.any():
+                continue
+            t1, t2 = rng.sample([-2, -1, 0, 1, 2], 2)
+            e = np.zeros(dim + 1)
+            e[rng.randrange(dim)] = rng.choice([1, -1, 2])
+            if np.linalg.matrix_rank(np.array([a + t1 * d, a + t2 * d, a + t1 * d + e], dtype=float)) < 3:
+                continue
+            rep, offp = rng.sample(range(4), 2)
+            rest = [i for i in range(4) if i not in (rep, offp)]
+            pts = [None] * 4
+            pts[rest[0]], pts[rest[1]] = (a + t1 * d).tolist(), (a + t2 * d).tolist()
+            pts[rep] = (rng.choice([2, -1, 3]) * (a + t1 * d)).tolist()       # the same point as pts[rest[0]]
+            pts[offp] = (a + t1 * d + e).tolist()
+            P = [g.Point(np.array(p, dtype=float)) for p in pts]
+            desc = f"not-collinear dim={dim} {pts} (positions {rest[0]} and {rep} are the same point)"
+            ctx.case(desc)
+            ctx.count("errors:points:repeated")
+            r = call_impl(lambda: g.crossratio(*P))
+            if not (r[0] == "err" and r[1] == "NotCollinear"):
+                # the pair (a, b) is special: the library returns 1 for a == b before any validation (known finding KF-C11-1)
+                sig = "C11:NotCollinear:repeated-a-b" if {rest[0], rep} == {0, 1} else f"C11:NotCollinear:{dim}d:repeated-point"
+                ctx.disagree(sig, desc, "NotCollinear", r[1:3], replay=[desc])
+            continue
         if np.linalg.matrix_rank(np.array(pts, dtype=float)) <= 2 or len({tuple(p) for p in pts}) < 4:
             continue
         P = [g.Point(np.array(p, dtype=float)) for p in pts]
